@@ -544,6 +544,12 @@ class Engine:
 
     def e_Dict(self, st, node):
         if node.keys:
+            # {"name": value, ...} with constant string keys: an immutable record
+            if all(isinstance(k, ast.Constant) and isinstance(k.value, str) for k in node.keys):
+                vals = [self.unbox_value(st, self.eval(st, v)) for v in node.values]
+                names = [k.value for k in node.keys]
+                t = Ty.Rec("dict", dict(zip(names, [v.t for v in vals])), mutable=False)
+                return V(t, [c for v in vals for c in v.c])
             raise Unsupported("non-empty dict literal")
         t = self.hint_type(node, Ty.Map(Key, Int))
         if isinstance(t, Ty.ODict):
@@ -903,6 +909,11 @@ class Engine:
                 return PyConst(val)
             raise Unsupported("symbolic index into python constant")
         t = bv.t
+        if isinstance(t, Ty.Rec) and isinstance(idx, PyConst) and isinstance(idx.val, str):
+            names = list(t.fields)
+            if idx.val not in names:
+                raise RaiseSignal("KeyError")
+            return Ty.split(t, bv.c)[names.index(idx.val)]
         if isinstance(t, Ty.List):
             i = self.num(self.deref(st, idx))
             ln = bv.c[0]
